@@ -23,8 +23,8 @@ META = {
     "explanation": "histories of bounded length enumerated; values symbolic",
     "bounds": {"quick": {"history_length": 2, "system_classes": 9, "two_system_objects": "euclid, diagonal"},
                "thorough": {"history_length": 3, "system_classes": 9}},
-    "outside": "histories longer than the bound; integrator/transition runs with caching defeated (the per-method sweep after every "
-               "operation subsumes them for the methods they call); autodiff back ends",
+    "outside": "histories longer than the bound; autodiff back ends; the integrator/transition comparison with caching defeated "
+               "is a concrete (float) pass over all system classes, not a symbolic one",
     "stubs": ["LAPACK stubs"],
     "assumptions": ["metric positive definite at every assigned position"],
 }
@@ -58,6 +58,88 @@ def run_group(rec, sname, hists, convention, two_systems):
     rec.note(f"{n} concrete histories with pickle round trips")
 
 
+class NoCache(dict):
+    """A state cache that never reports a hit: every cached method recomputes (caching defeated)."""
+
+    def __contains__(self, k):
+        return False
+
+    def copy(self):
+        return NoCache()
+
+
+def case_defeated(rec):
+    """Integrator steps and whole transitions with caching defeated vs active (concrete values, exact comparison), for every system
+    class with a compatible integrator and all four transition classes."""
+    import mici.integrators as IN
+    import mici.transitions as T
+    import mici.systems as S
+    import mici.matrices as M
+    from harness import syslib as sl
+    rec.encoded(CL.ST.cache_in_state, CL.ST.cache_in_state_with_aux, IN.Integrator.step, T.MetropolisIntegrationTransition._sample_n_step,
+                T.DynamicIntegrationTransition.sample)
+    n = 0
+    viol = {}
+    for sname, cfg0 in CL.SYSTEMS.items():
+        for conv in ("plain", "aux"):
+            rng0 = np.random.default_rng(7)
+            cfg = dict(cfg0)
+            kind, dim = cfg.pop("kind"), cfg.pop("dim")
+            sysm, info = sl.make_system(S, M, _Rand(rng0), kind, dim, convention=conv, **cfg)
+            if kind in ("euclid", "gauss"):
+                integs = [IN.LeapfrogIntegrator(sysm, 0.2), IN.BCSSTwoStageIntegrator(sysm, 0.2), IN.ImplicitLeapfrogIntegrator(sysm, 0.2),
+                          IN.ImplicitMidpointIntegrator(sysm, 0.2)]
+                q0, p0 = np.array([0.3, -0.4]), np.array([0.5, 0.2])
+            elif kind in ("constr", "gauss_constr"):
+                integs = [IN.ConstrainedLeapfrogIntegrator(sysm, 0.1, n_inner_step=k_) for k_ in (1, 2)]
+                r = float(np.sqrt(info["constraint"].r2))
+                q0 = r * np.array([np.cos(0.4), np.sin(0.4)])
+                p0 = 0.7 * np.array([-np.sin(0.4), np.cos(0.4)])
+                p0 = sysm.project_onto_cotangent_space(p0.copy(), CL.ChainState(pos=q0.copy(), mom=p0.copy(), dir=1))
+            else:
+                integs = [IN.ImplicitLeapfrogIntegrator(sysm, 0.05), IN.ImplicitMidpointIntegrator(sysm, 0.05)]
+                q0 = np.array([0.3, -0.4])[:dim]
+                p0 = np.array([0.5, 0.2])[:dim]
+            for integ in integs:
+                transitions = [lambda: T.MetropolisStaticIntegrationTransition(sysm, integ, n_step=3),
+                               lambda: T.MetropolisRandomIntegrationTransition(sysm, integ, n_step_range=(1, 4)),
+                               lambda: T.MultinomialDynamicIntegrationTransition(sysm, integ, max_tree_depth=3),
+                               lambda: T.SliceDynamicIntegrationTransition(sysm, integ, max_tree_depth=3)]
+                outs = []
+                for defeated in (False, True):
+                    res = []
+                    try:
+                        st = CL.ChainState(pos=q0.copy(), mom=p0.copy(), dir=1, _cache=NoCache() if defeated else None)
+                        s1 = st
+                        for _ in range(3):
+                            s1 = integ.step(s1)
+                        res.append(np.concatenate([s1.pos, s1.mom]))
+                        for mk_tr in transitions:
+                            tr = mk_tr()
+                            rng = np.random.default_rng(3)
+                            st = CL.ChainState(pos=q0.copy(), mom=p0.copy(), dir=1, _cache=NoCache() if defeated else None)
+                            for _ in range(3):
+                                st, stats = tr.sample(st, rng)
+                                st.mom = sysm.sample_momentum(st, rng)
+                            res.append(np.concatenate([st.pos, st.mom, [float(stats["accept_stat"]), float(stats["n_step"])]]))
+                    except Exception as e:  # noqa: BLE001
+                        res.append(f"{type(e).__name__}: {e}")
+                    outs.append(res)
+                n += 1
+                rec.path()
+                for i, (a, b) in enumerate(zip(outs[0], outs[1])):
+                    same = (isinstance(a, str) and isinstance(b, str) and a.split(":")[0] == b.split(":")[0]) or \
+                           (not isinstance(a, str) and not isinstance(b, str) and np.array_equal(a, b, equal_nan=True))
+                    if not same:
+                        what = "integrator steps" if i == 0 else ["Metropolis static", "Metropolis random", "multinomial", "slice"][i - 1] + " transition"
+                        viol.setdefault(f"{sname}:{type(integ).__name__}:{what}",
+                                        f"{sname} ({conv}) with {type(integ).__name__}: {what} differ with caching defeated: {a} vs {b}")
+    for k, msg in viol.items():
+        rec.candidate(key=f"defeated:{k}", label=msg, payload={"concrete": True})
+    rec.note(f"{n} (system, convention, integrator) combinations x (3 steps + 4 transition classes x 3 iterations)")
+    rec.obligation(f"caching defeated vs active: identical results in {n} system/integrator combinations", [], z3.BoolVal(False), syntactic=True)
+
+
 class _Rand(ConcMk):
     def __init__(self, rng):
         super().__init__({})
@@ -80,6 +162,7 @@ def cases(tier):
             for ci, ch in enumerate(chunks):
                 out.append(Case(f"{sname}/{conv}/h{ci}", run_group, {"sname": sname, "hists": ch, "convention": conv, "two_systems": False},
                                 timeout_s=1800))
+    out.append(Case("defeated", case_defeated, {}, timeout_s=900))
     for sname in ("euclid", "diagonal", "gauss"):
         hs2 = CL.histories(2, False)
         out.append(Case(f"{sname}/two_systems", run_group, {"sname": sname, "hists": hs2[:21], "convention": "plain", "two_systems": True}, timeout_s=1800))
